@@ -4,7 +4,6 @@
 From Coq Require Import Lia Arith Permutation.
 From BPT Require Import Common.Base Common.AMap Rust.Tree Rust.Readers Rust.InvDefs Rust.Lib
   Rust.TreeFactsR.
-Set Implicit Arguments.
 
 Section RemoveLocal.
 Variable V : Type.
@@ -382,7 +381,7 @@ Proof.
   apply sorted_keys_snoc in Sx. destruct Sx as [Sx Lk].
   apply Forall_app in Fx. destruct Fx as [Fx Fk]. inversion Fk as [|? ? [Bk1 Bk2] _]; subst.
   apply ords_snoc in Cx. destruct Cx as [Cx Cm].
-  pose proof (sep_lt_keys C Cy Fs Sy) as Lsep.
+  pose proof (sep_lt_keys _ _ _ _ _ _ C Cy Fs Sy) as Lsep.
   rewrite Forall_forall in Fx, Fy. simpl in Bk2.
   assert (Hk : hi_ok ub (kz mk)) by (eapply hi_ok_le; eauto; lia).
   repeat split; auto.
@@ -441,7 +440,7 @@ Proof.
   intros * C Ox Lx Oy Ly Fs Hl Hh.
   apply ord_branch_inv in Ox; auto. destruct Ox as (Sx & Fx & Cx).
   apply ord_branch_inv in Oy; auto. destruct Oy as (Sy & Fy & Cy).
-  pose proof (sep_lt_keys C Cy Fs Sy) as Lsep.
+  pose proof (sep_lt_keys _ _ _ _ _ _ C Cy Fs Sy) as Lsep.
   rewrite Forall_forall in Fx, Fy.
   apply ord_branch_intro.
   - apply sorted_keys_app. split; [auto|split].
@@ -453,6 +452,757 @@ Proof.
     + split; auto.
     + intros b Ib. destruct (Fy b Ib) as [B B']. split; auto. simpl in B. eapply lo_ok_le; eauto.
   - eapply ords_join; eauto.
+Qed.
+
+(* ---------------- lifting a repaired pair to the parent ---------------- *)
+Definition body (c : nat) (lo hi : option Z) (h : nat) (ks : list key) (cs : list ptree) : Prop :=
+  sorted_keys ks /\ Forall (in_bounds lo hi) ks /\ ords lo hi ks cs /\ Forall (shape c false h) cs.
+
+Lemma zip_sep_bounds : forall lo hi ks1 sep ks2,
+  sorted_keys (ks1 ++ sep :: ks2) -> Forall (in_bounds lo hi) (ks1 ++ sep :: ks2) ->
+  lo_ok (lastb lo ks1) (kz sep) /\ hi_ok (firstb hi ks2) (kz sep).
+Proof.
+  intros * S F. apply sorted_keys_app in S. destruct S as (S1 & S2 & S3).
+  apply Forall_app in F. destruct F as [F1 F2]. inversion F2 as [|? ? [B1 B2] F3]; subst.
+  split.
+  - destruct (snoc_cases ks1) as [->|(l & k & ->)]; simpl; auto.
+    rewrite lastb_snoc. simpl. assert (kz k < kz sep); [|lia].
+    apply S3; [apply in_or_app; right; left; auto|left; auto].
+  - destruct ks2 as [|k2 r]; simpl; auto.
+    apply sorted_keys_cons in S2. destruct S2 as [_ S2]. apply S2. left; auto.
+Qed.
+
+Lemma lift_keys_borrow : forall lo hi ks1 sep sep' ks2,
+  sorted_keys (ks1 ++ sep :: ks2) -> Forall (in_bounds lo hi) (ks1 ++ sep :: ks2) ->
+  gt_lo (lastb lo ks1) (kz sep') -> hi_ok (firstb hi ks2) (kz sep') ->
+  sorted_keys (ks1 ++ sep' :: ks2) /\ Forall (in_bounds lo hi) (ks1 ++ sep' :: ks2).
+Proof.
+  intros * S F G H. apply sorted_keys_app in S. destruct S as (S1 & S2 & S3).
+  apply Forall_app in F. destruct F as [F1 F2]. inversion F2 as [|? ? [B1 B2] F3]; subst.
+  apply sorted_keys_cons in S2. destruct S2 as [S2 S2'].
+  assert (L2 : forall b, In b ks2 -> kz sep' < kz b).
+  { intros b Ib. destruct ks2 as [|k2 r]; [destruct Ib|]. simpl in H.
+    destruct Ib as [<-|Ib]; auto. apply sorted_keys_cons in S2. destruct S2 as [_ S2].
+    specialize (S2 b Ib). lia. }
+  assert (L1 : forall e, In e ks1 -> kz e < kz sep').
+  { intros e Ie. destruct (snoc_cases ks1) as [->|(l & k & ->)]; [destruct Ie|].
+    rewrite lastb_snoc in G. simpl in G.
+    apply in_app_or in Ie. destruct Ie as [Ie|[<-|[]]]; auto.
+    apply sorted_keys_snoc in S1. destruct S1 as [_ S1]. specialize (S1 e Ie). lia. }
+  split.
+  - apply sorted_keys_app. split; [auto|split].
+    + apply sorted_keys_cons. split; auto.
+    + intros e b Ie [<-|Ib]; auto. apply S3; auto. right; auto.
+  - apply Forall_app. split; auto. constructor; auto. split.
+    + destruct (snoc_cases ks1) as [->|(l & k & ->)].
+      * simpl in G. apply gt_lo_lo_ok; auto.
+      * rewrite lastb_snoc in G. simpl in G. rewrite Forall_forall in F1.
+        destruct (F1 k) as [B _]; [apply in_or_app; right; left; auto|].
+        eapply lo_ok_le; eauto. lia.
+    + destruct ks2 as [|k2 r]; simpl in H; auto.
+      inversion F3 as [|? ? [_ B] _]; subst. eapply hi_ok_le; eauto. lia.
+Qed.
+
+Lemma lift_keys_merge : forall lo hi ks1 (sep : key) ks2,
+  sorted_keys (ks1 ++ sep :: ks2) -> Forall (in_bounds lo hi) (ks1 ++ sep :: ks2) ->
+  sorted_keys (ks1 ++ ks2) /\ Forall (in_bounds lo hi) (ks1 ++ ks2).
+Proof.
+  intros * S F. apply sorted_keys_app in S. destruct S as (S1 & S2 & S3).
+  apply Forall_app in F. destruct F as [F1 F2]. inversion F2; subst.
+  apply sorted_keys_cons in S2. destruct S2 as [S2 _].
+  split.
+  - apply sorted_keys_app. split; [auto|split]; auto. intros. apply S3; auto. right; auto.
+  - apply Forall_app; auto.
+Qed.
+Close Scope Z_scope.
+
+Lemma flat_map_zip2 : forall (B : Type) (f : ptree -> list B) cs1 x y cs2,
+  flat_map f (cs1 ++ x :: y :: cs2) = flat_map f cs1 ++ (f x ++ f y) ++ flat_map f cs2.
+Proof. intros. rewrite flat_map_app. simpl. rewrite <- app_assoc. reflexivity. Qed.
+
+Lemma flat_map_zip1 : forall (B : Type) (f : ptree -> list B) cs1 m cs2,
+  flat_map f (cs1 ++ m :: cs2) = flat_map f cs1 ++ f m ++ flat_map f cs2.
+Proof. intros. rewrite flat_map_app. reflexivity. Qed.
+
+Lemma links_ctx : forall (X M A B : list (N * N)),
+  (forall pre post after, links_ok (pre ++ X ++ post) after -> links_ok (pre ++ M ++ post) after) ->
+  forall pre post after, links_ok (pre ++ (A ++ X ++ B) ++ post) after ->
+    links_ok (pre ++ (A ++ M ++ B) ++ post) after.
+Proof.
+  intros X M A B H pre post after L.
+  replace (pre ++ (A ++ M ++ B) ++ post) with ((pre ++ A) ++ M ++ (B ++ post))
+    by (repeat rewrite <- app_assoc; reflexivity).
+  apply H. repeat rewrite <- app_assoc in *. exact L.
+Qed.
+
+Lemma perm_ctx : forall (X M A B d : list N),
+  Permutation X (d ++ M) -> Permutation (A ++ X ++ B) (d ++ A ++ M ++ B).
+Proof.
+  intros. eapply Permutation_trans.
+  - apply Permutation_app_head. apply Permutation_app_tail. exact H.
+  - rewrite <- app_assoc. apply Permutation_app_swap_app.
+Qed.
+
+Lemma zip_ctx : forall lo hi ks1 sep ks2 (cs1 : list ptree) x y cs2,
+  length cs1 = length ks1 ->
+  ords lo hi (ks1 ++ sep :: ks2) (cs1 ++ x :: y :: cs2) ->
+  ordp lo ks1 cs1 /\ ord (lastb lo ks1) (Some (kz sep)) x /\
+  ords (Some (kz sep)) hi ks2 (y :: cs2) /\ ord (Some (kz sep)) (firstb hi ks2) y.
+Proof.
+  intros * L O. apply ords_app in O; auto. destruct O as [O1 O2]. simpl in O2.
+  destruct O2 as [O2 O3]. repeat split; auto. eapply ords_cons_inv; eauto.
+Qed.
+
+Lemma lift_borrow_body : forall c lo hi h ks1 sep ks2 (cs1 : list ptree) x y cs2 sep' x' y',
+  length cs1 = length ks1 ->
+  sorted_keys (ks1 ++ sep :: ks2) -> Forall (in_bounds lo hi) (ks1 ++ sep :: ks2) ->
+  ords lo hi (ks1 ++ sep :: ks2) (cs1 ++ x :: y :: cs2) ->
+  Forall (shape c false h) cs1 -> Forall (shape c false h) cs2 ->
+  ord (lastb lo ks1) (Some (kz sep')) x' -> ord (Some (kz sep')) (firstb hi ks2) y' ->
+  gt_lo (lastb lo ks1) (kz sep') -> hi_ok (firstb hi ks2) (kz sep') ->
+  shape c false h x' -> shape c false h y' ->
+  body c lo hi h (ks1 ++ sep' :: ks2) (cs1 ++ x' :: y' :: cs2).
+Proof.
+  intros * L S F O F1 F2 Ox Oy G H Sx Sy.
+  destruct (zip_ctx _ _ _ _ _ _ _ _ _ L O) as (O1 & _ & O3 & _).
+  destruct (lift_keys_borrow _ _ _ _ _ _ S F G H) as [S' F'].
+  split; [auto|split; [auto|split]].
+  - apply ords_app; auto. split; auto. simpl. split; auto.
+    eapply ords_cons_change; eauto.
+  - apply Forall_app. split; auto.
+Qed.
+
+Lemma lift_merge_body : forall c lo hi h ks1 sep ks2 (cs1 : list ptree) x y cs2 m,
+  length cs1 = length ks1 ->
+  sorted_keys (ks1 ++ sep :: ks2) -> Forall (in_bounds lo hi) (ks1 ++ sep :: ks2) ->
+  ords lo hi (ks1 ++ sep :: ks2) (cs1 ++ x :: y :: cs2) ->
+  Forall (shape c false h) cs1 -> Forall (shape c false h) cs2 ->
+  ord (lastb lo ks1) (firstb hi ks2) m -> shape c false h m ->
+  body c lo hi h (ks1 ++ ks2) (cs1 ++ m :: cs2).
+Proof.
+  intros * L S F O F1 F2 Om Sm.
+  destruct (zip_ctx _ _ _ _ _ _ _ _ _ L O) as (O1 & _ & O3 & _).
+  destruct (lift_keys_merge _ _ _ _ _ S F) as [S' F'].
+  split; [auto|split; [auto|split]].
+  - apply ords_app; auto. split; auto. eapply ords_cons_change; eauto.
+  - apply Forall_app. split; auto.
+Qed.
+
+(* ---------------- the eight cases on a zipper ---------------- *)
+Notation CT := (flat_map (@contents V)).
+Notation LL := (flat_map (@leaf_links V)).
+Notation BI := (flat_map (@branch_ids V)).
+
+Definition rb_post (c : nat) (lo hi : option Z) (h : nat) (ks : list key) (cs : list ptree)
+    (dl db : list N) (ks' : list key) (cs' : list ptree) : Prop :=
+  body c lo hi h ks' cs' /\
+  (length ks' = length ks \/ S (length ks') = length ks) /\
+  CT cs' = CT cs /\
+  (forall pre post after, links_ok (pre ++ LL cs ++ post) after -> links_ok (pre ++ LL cs' ++ post) after) /\
+  Permutation (map fst (LL cs)) (dl ++ map fst (LL cs')) /\
+  Permutation (BI cs) (db ++ BI cs').
+
+Section ZipP.
+Variable A : Type.
+Lemma nth_error_zip0' : forall n (l1 : list A) x l2, n = length l1 -> nth_error (l1 ++ x :: l2) n = Some x.
+Proof. intros; subst; apply nth_error_zip0. Qed.
+Lemma nth_error_zip1' : forall n (l1 : list A) x y l2, n = length l1 -> nth_error (l1 ++ x :: y :: l2) (S n) = Some y.
+Proof. intros; subst; apply nth_error_zip1. Qed.
+Lemma set_nth_zip0' : forall n (l1 : list A) x z l2, n = length l1 -> set_nth n z (l1 ++ x :: l2) = l1 ++ z :: l2.
+Proof. intros; subst; apply set_nth_zip0. Qed.
+Lemma set_nth_zip1' : forall n (l1 : list A) x y z l2, n = length l1 -> set_nth (S n) z (l1 ++ x :: y :: l2) = l1 ++ x :: z :: l2.
+Proof. intros; subst; apply set_nth_zip1. Qed.
+Lemma remove_at_zip0' : forall n (l1 : list A) x l2, n = length l1 -> remove_at n (l1 ++ x :: l2) = l1 ++ l2.
+Proof. intros; subst; apply remove_at_zip0. Qed.
+Lemma remove_at_zip1' : forall n (l1 : list A) x y l2, n = length l1 -> remove_at (S n) (l1 ++ x :: y :: l2) = l1 ++ x :: l2.
+Proof. intros; subst; apply remove_at_zip1. Qed.
+End ZipP.
+
+Lemma combine_snoc : forall (ks : list key) (vs : list V) k v, length vs = length ks ->
+  combine (ks ++ [k]) (vs ++ [v]) = combine ks vs ++ [(k, v)].
+Proof. intros. rewrite combine_app; auto. Qed.
+
+Lemma same_links_post : forall (cs cs' : list ptree),
+  LL cs' = LL cs ->
+  (forall pre post after, links_ok (pre ++ LL cs ++ post) after -> links_ok (pre ++ LL cs' ++ post) after) /\
+  Permutation (map fst (LL cs)) ([] ++ map fst (LL cs')).
+Proof. intros cs cs' E. rewrite E. split; auto. Qed.
+
+Lemma case_leaf_borrow_left : forall c lo hi ks1 sep ks2 cs1 cs2 lm bm xid xks xvs xnx yid yks yvs ynx,
+  4 <= c -> length cs1 = length ks1 ->
+  sorted_keys (ks1 ++ sep :: ks2) -> Forall (in_bounds lo hi) (ks1 ++ sep :: ks2) ->
+  ords lo hi (ks1 ++ sep :: ks2) (cs1 ++ PLeaf xid c xks xvs xnx :: PLeaf yid c yks yvs ynx :: cs2) ->
+  Forall (shape c false 0) cs1 -> Forall (shape c false 0) cs2 ->
+  length xvs = length xks -> c / 2 < length xks -> length xks <= c ->
+  length yvs = length yks -> S (length yks) = c / 2 ->
+  exists ks' cs',
+    rebalance_leaf lm bm (ks1 ++ sep :: ks2)
+      (cs1 ++ PLeaf xid c xks xvs xnx :: PLeaf yid c yks yvs ynx :: cs2) (S (length cs1))
+    = Ok (lm, bm, ks', cs') /\
+    rb_post c lo hi 0 (ks1 ++ sep :: ks2)
+      (cs1 ++ PLeaf xid c xks xvs xnx :: PLeaf yid c yks yvs ynx :: cs2) [] [] ks' cs'.
+Proof.
+  intros * C L Sk F O F1 F2 Lxv Lx1 Lx2 Lyv Ly.
+  destruct (snoc_cases xks) as [->|(xks' & k & ->)]; [cbn [length] in Lx1; lia|].
+  destruct (snoc_cases xvs) as [->|(xvs' & v & ->)];
+    [rewrite app_length in Lxv; cbn [length] in Lxv; lia|].
+  assert (Lxv' : length xvs' = length xks') by (rewrite !app_length in Lxv; cbn [length] in Lxv; lia).
+  assert (Lx' : c / 2 <= length xks') by (rewrite app_length in Lx1; cbn [length] in Lx1; lia).
+  eexists. eexists. split.
+  - erewrite exec_leaf_borrow_left with (ci := S (length cs1)); try lia.
+    + replace (S (length cs1) - 1) with (length cs1) by lia.
+      rewrite (set_nth_zip0' _ _ _ _ _ _ L).
+      rewrite (set_nth_zip0' _ _ _ _ _ _ eq_refl).
+      rewrite (set_nth_zip1' _ _ _ _ _ _ _ eq_refl). reflexivity.
+    + rewrite app_length. simpl. lia.
+    + apply nth_error_zip1.
+    + replace (S (length cs1) - 1) with (length cs1) by lia. apply nth_error_zip0.
+    + auto.
+  - destruct (zip_ctx _ _ _ _ _ _ _ _ _ L O) as (_ & Ox & _ & Oy).
+    destruct (zip_sep_bounds _ _ _ _ _ Sk F) as [Bl Bh].
+    assert (Ne : xks' <> []) by (intro; subst; hlia c).
+    destruct (pair_leaf_borrow_left _ _ _ _ _ _ _ _ v _ _ _ _ _ _ Ox Oy Bh Ne) as (Ox' & Oy' & G & H).
+    split; [|split; [|split; [|split; [|split]]]].
+    + eapply lift_borrow_body; eauto.
+      * constructor; auto. rewrite app_length in Lx2; cbn [length] in Lx2; lia.
+      * constructor; cbn [length]; [lia | hlia c | intros _; hlia c].
+    + left. rewrite !app_length. reflexivity.
+    + rewrite !flat_map_zip2. simpl. rewrite combine_snoc; auto. repeat rewrite <- app_assoc. simpl. reflexivity.
+    + apply same_links_post. rewrite !flat_map_zip2. reflexivity.
+    + apply same_links_post. rewrite !flat_map_zip2. reflexivity.
+    + rewrite !flat_map_zip2. simpl. apply Permutation_refl.
+Qed.
+
+Lemma case_leaf_borrow_right : forall c lo hi ks1 sep ks2 cs1 cs2 lm bm xid xks xvs xnx yid yks yvs ynx,
+  4 <= c -> length cs1 = length ks1 ->
+  sorted_keys (ks1 ++ sep :: ks2) -> Forall (in_bounds lo hi) (ks1 ++ sep :: ks2) ->
+  ords lo hi (ks1 ++ sep :: ks2) (cs1 ++ PLeaf xid c xks xvs xnx :: PLeaf yid c yks yvs ynx :: cs2) ->
+  Forall (shape c false 0) cs1 -> Forall (shape c false 0) cs2 ->
+  length xvs = length xks -> S (length xks) = c / 2 ->
+  length yvs = length yks -> c / 2 < length yks -> length yks <= c ->
+  (forall l, 0 < length cs1 ->
+     nth_error (cs1 ++ PLeaf xid c xks xvs xnx :: PLeaf yid c yks yvs ynx :: cs2) (length cs1 - 1) = Some l ->
+     can_donate l = false) ->
+  exists ks' cs',
+    rebalance_leaf lm bm (ks1 ++ sep :: ks2)
+      (cs1 ++ PLeaf xid c xks xvs xnx :: PLeaf yid c yks yvs ynx :: cs2) (length cs1)
+    = Ok (lm, bm, ks', cs') /\
+    rb_post c lo hi 0 (ks1 ++ sep :: ks2)
+      (cs1 ++ PLeaf xid c xks xvs xnx :: PLeaf yid c yks yvs ynx :: cs2) [] [] ks' cs'.
+Proof.
+  intros * C L Sk F O F1 F2 Lxv Lx Lyv Ly1 Ly2 HL.
+  destruct yks as [|k [|s yks'']]; try (cbn [length] in Ly1; hlia c).
+  destruct yvs as [|v yvs']; [discriminate|].
+  eexists. eexists. split.
+  - erewrite exec_leaf_borrow_right with (ci := length cs1).
+    + rewrite (set_nth_zip0' _ _ _ _ _ _ L).
+      rewrite (set_nth_zip1' _ _ _ _ _ _ _ eq_refl).
+      rewrite (set_nth_zip0' _ _ _ _ _ _ eq_refl). reflexivity.
+    + rewrite app_length. simpl. lia.
+    + apply nth_error_zip0.
+    + exact HL.
+    + apply nth_error_zip1.
+    + auto.
+  - destruct (zip_ctx _ _ _ _ _ _ _ _ _ L O) as (_ & Ox & _ & Oy).
+    destruct (zip_sep_bounds _ _ _ _ _ Sk F) as [Bl Bh].
+    destruct (pair_leaf_borrow_right _ _ _ _ _ _ _ _ _ _ _ _ _ _ _ _ Ox Oy Bl) as (Ox' & Oy' & G & H).
+    split; [|split; [|split; [|split; [|split]]]].
+    + eapply lift_borrow_body; eauto.
+      * constructor; rewrite ?app_length; cbn [length]; [lia | hlia c | intros _; hlia c].
+      * constructor; cbn [length] in *; [lia | lia | intros _; lia].
+    + left. rewrite !app_length. reflexivity.
+    + rewrite !flat_map_zip2. simpl. rewrite combine_snoc; auto. repeat rewrite <- app_assoc. simpl. reflexivity.
+    + apply same_links_post. rewrite !flat_map_zip2. reflexivity.
+    + apply same_links_post. rewrite !flat_map_zip2. reflexivity.
+    + rewrite !flat_map_zip2. simpl. apply Permutation_refl.
+Qed.
+
+Lemma leaf_merge_post : forall c lo hi ks1 sep ks2 cs1 cs2 xid xks xvs xnx yid yks yvs ynx,
+  4 <= c -> length cs1 = length ks1 ->
+  sorted_keys (ks1 ++ sep :: ks2) -> Forall (in_bounds lo hi) (ks1 ++ sep :: ks2) ->
+  ords lo hi (ks1 ++ sep :: ks2) (cs1 ++ PLeaf xid c xks xvs xnx :: PLeaf yid c yks yvs ynx :: cs2) ->
+  Forall (shape c false 0) cs1 -> Forall (shape c false 0) cs2 ->
+  length xvs = length xks -> length yvs = length yks ->
+  S (length xks + length yks) = 2 * (c / 2) ->
+  rb_post c lo hi 0 (ks1 ++ sep :: ks2)
+    (cs1 ++ PLeaf xid c xks xvs xnx :: PLeaf yid c yks yvs ynx :: cs2) [yid] []
+    (ks1 ++ ks2) (cs1 ++ PLeaf xid c (xks ++ yks) (xvs ++ yvs) ynx :: cs2).
+Proof.
+  intros * C L Sk F O F1 F2 Lxv Lyv Lsum.
+  destruct (zip_ctx _ _ _ _ _ _ _ _ _ L O) as (_ & Ox & _ & Oy).
+  destruct (zip_sep_bounds _ _ _ _ _ Sk F) as [Bl Bh].
+  pose proof (pair_leaf_merge _ _ _ _ _ _ _ _ _ _ _ _ _ Ox Oy Bl Bh) as Om.
+  split; [|split; [|split; [|split; [|split]]]].
+  - eapply lift_merge_body; eauto.
+    constructor; rewrite ?app_length; [lia | hlia c | intros _; hlia c].
+  - right. rewrite !app_length. simpl. lia.
+  - rewrite flat_map_zip2, flat_map_zip1. simpl. rewrite combine_app; auto.
+  - rewrite flat_map_zip2, flat_map_zip1. apply links_ctx.
+    intros pre post after. simpl. apply links_merge.
+  - rewrite flat_map_zip2, flat_map_zip1. rewrite !map_app. apply perm_ctx. simpl. apply perm_swap.
+  - rewrite flat_map_zip2, flat_map_zip1. simpl. apply Permutation_refl.
+Qed.
+
+Lemma case_leaf_merge_left : forall c lo hi ks1 sep ks2 cs1 cs2 lm bm xid xks xvs xnx yid yks yvs ynx,
+  4 <= c -> length cs1 = length ks1 ->
+  sorted_keys (ks1 ++ sep :: ks2) -> Forall (in_bounds lo hi) (ks1 ++ sep :: ks2) ->
+  ords lo hi (ks1 ++ sep :: ks2) (cs1 ++ PLeaf xid c xks xvs xnx :: PLeaf yid c yks yvs ynx :: cs2) ->
+  Forall (shape c false 0) cs1 -> Forall (shape c false 0) cs2 ->
+  length xvs = length xks -> length xks = c / 2 ->
+  length yvs = length yks -> S (length yks) = c / 2 ->
+  (forall r, nth_error (cs1 ++ PLeaf xid c xks xvs xnx :: PLeaf yid c yks yvs ynx :: cs2)
+       (S (S (length cs1))) = Some r -> can_donate r = false) ->
+  exists ks' cs',
+    rebalance_leaf lm bm (ks1 ++ sep :: ks2)
+      (cs1 ++ PLeaf xid c xks xvs xnx :: PLeaf yid c yks yvs ynx :: cs2) (S (length cs1))
+    = Ok (deallocs lm [yid], bm, ks', cs') /\
+    rb_post c lo hi 0 (ks1 ++ sep :: ks2)
+      (cs1 ++ PLeaf xid c xks xvs xnx :: PLeaf yid c yks yvs ynx :: cs2) [yid] [] ks' cs'.
+Proof.
+  intros * C L Sk F O F1 F2 Lxv Lx Lyv Ly HR.
+  eexists. eexists. split.
+  - erewrite exec_leaf_merge_left with (ci := S (length cs1)) (sep := sep); try lia.
+    + replace (S (length cs1) - 1) with (length cs1) by lia.
+      rewrite (remove_at_zip0' _ _ _ _ _ L).
+      rewrite (set_nth_zip0' _ _ _ _ _ _ eq_refl).
+      rewrite (remove_at_zip1' _ _ _ _ _ _ eq_refl). reflexivity.
+    + replace (S (length cs1) - 1) with (length cs1) by lia. apply nth_error_zip0'. auto.
+    + apply nth_error_zip1.
+    + replace (S (length cs1) - 1) with (length cs1) by lia. apply nth_error_zip0.
+    + rewrite Lx; auto.
+    + exact HR.
+    + hlia c.
+    + hlia c.
+  - apply leaf_merge_post; auto. hlia c.
+Qed.
+
+Lemma case_leaf_merge_right : forall c lo hi sep ks2 cs2 lm bm xid xks xvs xnx yid yks yvs ynx,
+  4 <= c ->
+  sorted_keys (sep :: ks2) -> Forall (in_bounds lo hi) (sep :: ks2) ->
+  ords lo hi (sep :: ks2) (PLeaf xid c xks xvs xnx :: PLeaf yid c yks yvs ynx :: cs2) ->
+  Forall (shape c false 0) cs2 ->
+  length xvs = length xks -> S (length xks) = c / 2 ->
+  length yvs = length yks -> length yks = c / 2 ->
+  exists ks' cs',
+    rebalance_leaf lm bm (sep :: ks2)
+      (PLeaf xid c xks xvs xnx :: PLeaf yid c yks yvs ynx :: cs2) 0
+    = Ok (deallocs lm [yid], bm, ks', cs') /\
+    rb_post c lo hi 0 (sep :: ks2)
+      (PLeaf xid c xks xvs xnx :: PLeaf yid c yks yvs ynx :: cs2) [yid] [] ks' cs'.
+Proof.
+  intros * C Sk F O F2 Lxv Lx Lyv Ly.
+  eexists. eexists. split.
+  - erewrite exec_leaf_merge_right with (sep := sep); try reflexivity.
+    + hlia c.
+    + hlia c.
+    + hlia c.
+  - apply (leaf_merge_post c lo hi [] sep ks2 [] cs2); auto. hlia c.
+Qed.
+
+Lemma perm_move : forall (a m b : list N) y,
+  Permutation ((a ++ m) ++ y :: b) (a ++ y :: m ++ b).
+Proof.
+  intros. rewrite <- app_assoc. apply Permutation_app_head.
+  apply Permutation_sym. apply Permutation_middle.
+Qed.
+
+Lemma case_branch_borrow_left : forall c lo hi h ks1 sep ks2 cs1 cs2 lm bm xid xks xcs yid yks ycs,
+  4 <= c -> length cs1 = length ks1 ->
+  sorted_keys (ks1 ++ sep :: ks2) -> Forall (in_bounds lo hi) (ks1 ++ sep :: ks2) ->
+  ords lo hi (ks1 ++ sep :: ks2) (cs1 ++ PBranch xid c xks xcs :: PBranch yid c yks ycs :: cs2) ->
+  Forall (shape c false (S h)) cs1 -> Forall (shape c false (S h)) cs2 ->
+  length xcs = S (length xks) -> c / 2 < length xks -> length xks <= c ->
+  Forall (shape c false h) xcs ->
+  length ycs = S (length yks) -> S (length yks) = c / 2 -> Forall (shape c false h) ycs ->
+  exists ks' cs',
+    rebalance_branch lm bm (ks1 ++ sep :: ks2)
+      (cs1 ++ PBranch xid c xks xcs :: PBranch yid c yks ycs :: cs2) (S (length cs1))
+    = Ok (lm, bm, ks', cs') /\
+    rb_post c lo hi (S h) (ks1 ++ sep :: ks2)
+      (cs1 ++ PBranch xid c xks xcs :: PBranch yid c yks ycs :: cs2) [] [] ks' cs'.
+Proof.
+  intros * C L Sk F O F1 F2 Lxc Lx1 Lx2 Fx Lyc Ly Fy.
+  destruct (snoc_cases xks) as [->|(xks' & mk & ->)]; [cbn [length] in Lx1; lia|].
+  destruct (snoc_cases xcs) as [->|(xcs' & mc & ->)]; [discriminate|].
+  assert (Lxc' : length xcs' = S (length xks')) by (rewrite !app_length in Lxc; cbn [length] in Lxc; lia).
+  assert (Lx' : c / 2 <= length xks') by (rewrite app_length in Lx1; cbn [length] in Lx1; lia).
+  apply Forall_app in Fx. destruct Fx as [Fx Fm]. inversion Fm as [|? ? Sm _]; subst.
+  pose proof (ords_length _ _ _ _ O) as LO.
+  eexists. eexists. split.
+  - erewrite exec_branch_borrow_left with (ci := S (length cs1)) (sep := sep); try lia.
+    + replace (S (length cs1) - 1) with (length cs1) by lia.
+      rewrite (set_nth_zip0' _ _ _ _ _ _ L).
+      rewrite (set_nth_zip0' _ _ _ _ _ _ eq_refl).
+      rewrite (set_nth_zip1' _ _ _ _ _ _ _ eq_refl). reflexivity.
+    + replace (S (length cs1) - 1) with (length cs1) by lia. apply nth_error_zip0'. auto.
+    + apply nth_error_zip1.
+    + replace (S (length cs1) - 1) with (length cs1) by lia. apply nth_error_zip0.
+    + auto.
+  - destruct (zip_ctx _ _ _ _ _ _ _ _ _ L O) as (_ & Ox & _ & Oy).
+    destruct (zip_sep_bounds _ _ _ _ _ Sk F) as [Bl Bh].
+    assert (Ne : xks' <> []) by (intro; subst; hlia c).
+    destruct (pair_branch_borrow_left c h _ _ _ _ _ _ _ _ _ _ _ _ _ C Ox Lxc Oy Lyc Fy Bh Ne)
+      as (Ox' & Oy' & G & H).
+    split; [|split; [|split; [|split; [|split]]]].
+    + eapply lift_borrow_body; eauto.
+      * apply shape_branch_intro; auto; try discriminate.
+        rewrite app_length in Lx2; cbn [length] in Lx2; lia.
+      * apply shape_branch_intro; cbn [length]; auto; try discriminate; try lia; hlia c.
+    + left. rewrite !app_length. reflexivity.
+    + rewrite !flat_map_zip2. simpl. rewrite flat_map_app. simpl. rewrite app_nil_r.
+      repeat rewrite <- app_assoc. reflexivity.
+    + apply same_links_post. rewrite !flat_map_zip2. simpl. rewrite flat_map_app. simpl.
+      rewrite app_nil_r. repeat rewrite <- app_assoc. reflexivity.
+    + apply same_links_post. rewrite !flat_map_zip2. simpl. rewrite flat_map_app. simpl.
+      rewrite app_nil_r. repeat rewrite <- app_assoc. reflexivity.
+    + rewrite !flat_map_zip2. apply (perm_ctx _ _ _ _ []). simpl. constructor.
+      rewrite flat_map_app. simpl. rewrite app_nil_r. apply perm_move.
+Qed.
+
+Lemma case_branch_borrow_right : forall c lo hi h ks1 sep ks2 cs1 cs2 lm bm xid xks xcs yid yks ycs,
+  4 <= c -> length cs1 = length ks1 ->
+  sorted_keys (ks1 ++ sep :: ks2) -> Forall (in_bounds lo hi) (ks1 ++ sep :: ks2) ->
+  ords lo hi (ks1 ++ sep :: ks2) (cs1 ++ PBranch xid c xks xcs :: PBranch yid c yks ycs :: cs2) ->
+  Forall (shape c false (S h)) cs1 -> Forall (shape c false (S h)) cs2 ->
+  length xcs = S (length xks) -> S (length xks) = c / 2 -> Forall (shape c false h) xcs ->
+  length ycs = S (length yks) -> c / 2 < length yks -> length yks <= c ->
+  Forall (shape c false h) ycs ->
+  (forall l, 0 < length cs1 ->
+     nth_error (cs1 ++ PBranch xid c xks xcs :: PBranch yid c yks ycs :: cs2) (length cs1 - 1) = Some l ->
+     can_donate l = false) ->
+  exists ks' cs',
+    rebalance_branch lm bm (ks1 ++ sep :: ks2)
+      (cs1 ++ PBranch xid c xks xcs :: PBranch yid c yks ycs :: cs2) (length cs1)
+    = Ok (lm, bm, ks', cs') /\
+    rb_post c lo hi (S h) (ks1 ++ sep :: ks2)
+      (cs1 ++ PBranch xid c xks xcs :: PBranch yid c yks ycs :: cs2) [] [] ks' cs'.
+Proof.
+  intros * C L Sk F O F1 F2 Lxc Lx Fx Lyc Ly1 Ly2 Fy HL.
+  destruct yks as [|mk yks']; [cbn [length] in Ly1; lia|].
+  destruct ycs as [|mc ycs']; [discriminate|].
+  inversion Fy as [|? ? Sm Fy']; subst.
+  pose proof (ords_length _ _ _ _ O) as LO.
+  eexists. eexists. split.
+  - erewrite exec_branch_borrow_right with (ci := length cs1) (sep := sep).
+    + rewrite (set_nth_zip0' _ _ _ _ _ _ L).
+      rewrite (set_nth_zip1' _ _ _ _ _ _ _ eq_refl).
+      rewrite (set_nth_zip0' _ _ _ _ _ _ eq_refl). reflexivity.
+    + exact LO.
+    + apply nth_error_zip0'. auto.
+    + apply nth_error_zip0.
+    + exact HL.
+    + apply nth_error_zip1.
+    + auto.
+  - destruct (zip_ctx _ _ _ _ _ _ _ _ _ L O) as (_ & Ox & _ & Oy).
+    destruct (zip_sep_bounds _ _ _ _ _ Sk F) as [Bl Bh].
+    destruct (pair_branch_borrow_right c h _ _ _ _ _ _ _ _ _ _ _ _ _ C Ox Lxc Oy Lyc Sm Bl)
+      as (Ox' & Oy' & G & H).
+    split; [|split; [|split; [|split; [|split]]]].
+    + eapply lift_borrow_body; eauto.
+      * apply shape_branch_intro; rewrite ?app_length; cbn [length]; try discriminate; try lia; try hlia c.
+        apply Forall_app; split; auto.
+      * apply shape_branch_intro; cbn [length] in *; auto; try discriminate; lia.
+    + left. rewrite !app_length. reflexivity.
+    + rewrite !flat_map_zip2. simpl. rewrite flat_map_app. simpl. rewrite app_nil_r.
+      repeat rewrite <- app_assoc. reflexivity.
+    + apply same_links_post. rewrite !flat_map_zip2. simpl. rewrite flat_map_app. simpl.
+      rewrite app_nil_r. repeat rewrite <- app_assoc. reflexivity.
+    + apply same_links_post. rewrite !flat_map_zip2. simpl. rewrite flat_map_app. simpl.
+      rewrite app_nil_r. repeat rewrite <- app_assoc. reflexivity.
+    + rewrite !flat_map_zip2. apply (perm_ctx _ _ _ _ []). simpl. constructor.
+      rewrite flat_map_app. simpl. rewrite app_nil_r. apply Permutation_sym. apply perm_move.
+Qed.
+
+Lemma branch_merge_post : forall c lo hi h ks1 sep ks2 cs1 cs2 xid xks xcs yid yks ycs,
+  4 <= c -> length cs1 = length ks1 ->
+  sorted_keys (ks1 ++ sep :: ks2) -> Forall (in_bounds lo hi) (ks1 ++ sep :: ks2) ->
+  ords lo hi (ks1 ++ sep :: ks2) (cs1 ++ PBranch xid c xks xcs :: PBranch yid c yks ycs :: cs2) ->
+  Forall (shape c false (S h)) cs1 -> Forall (shape c false (S h)) cs2 ->
+  length xcs = S (length xks) -> Forall (shape c false h) xcs ->
+  length ycs = S (length yks) -> Forall (shape c false h) ycs ->
+  S (length xks + length yks) = 2 * (c / 2) ->
+  rb_post c lo hi (S h) (ks1 ++ sep :: ks2)
+    (cs1 ++ PBranch xid c xks xcs :: PBranch yid c yks ycs :: cs2) [] [yid]
+    (ks1 ++ ks2) (cs1 ++ PBranch xid c (xks ++ sep :: yks) (xcs ++ ycs) :: cs2).
+Proof.
+  intros * C L Sk F O F1 F2 Lxc Fx Lyc Fy Lsum.
+  destruct (zip_ctx _ _ _ _ _ _ _ _ _ L O) as (_ & Ox & _ & Oy).
+  destruct (zip_sep_bounds _ _ _ _ _ Sk F) as [Bl Bh].
+  pose proof (pair_branch_merge c h _ _ _ _ _ _ _ _ _ _ _ C Ox Lxc Oy Lyc Fy Bl Bh) as Om.
+  split; [|split; [|split; [|split; [|split]]]].
+  - eapply lift_merge_body; eauto.
+    apply shape_branch_intro; rewrite ?app_length; cbn [length]; try discriminate; try lia; try hlia c.
+    apply Forall_app; split; auto.
+  - right. rewrite !app_length. simpl. lia.
+  - rewrite flat_map_zip2, flat_map_zip1. simpl. rewrite flat_map_app. reflexivity.
+  - apply same_links_post. rewrite flat_map_zip2, flat_map_zip1. simpl. rewrite flat_map_app. reflexivity.
+  - apply same_links_post. rewrite flat_map_zip2, flat_map_zip1. simpl. rewrite flat_map_app. reflexivity.
+  - rewrite flat_map_zip2, flat_map_zip1. apply perm_ctx. simpl. rewrite flat_map_app.
+    apply Permutation_sym.
+    apply (Permutation_middle (xid :: flat_map (@branch_ids V) xcs) (flat_map (@branch_ids V) ycs) yid).
+Qed.
+
+Lemma case_branch_merge_left : forall c lo hi h ks1 sep ks2 cs1 cs2 lm bm xid xks xcs yid yks ycs,
+  4 <= c -> length cs1 = length ks1 ->
+  sorted_keys (ks1 ++ sep :: ks2) -> Forall (in_bounds lo hi) (ks1 ++ sep :: ks2) ->
+  ords lo hi (ks1 ++ sep :: ks2) (cs1 ++ PBranch xid c xks xcs :: PBranch yid c yks ycs :: cs2) ->
+  Forall (shape c false (S h)) cs1 -> Forall (shape c false (S h)) cs2 ->
+  length xcs = S (length xks) -> length xks = c / 2 -> Forall (shape c false h) xcs ->
+  length ycs = S (length yks) -> S (length yks) = c / 2 -> Forall (shape c false h) ycs ->
+  (forall r, nth_error (cs1 ++ PBranch xid c xks xcs :: PBranch yid c yks ycs :: cs2)
+       (S (S (length cs1))) = Some r -> can_donate r = false) ->
+  exists ks' cs',
+    rebalance_branch lm bm (ks1 ++ sep :: ks2)
+      (cs1 ++ PBranch xid c xks xcs :: PBranch yid c yks ycs :: cs2) (S (length cs1))
+    = Ok (lm, deallocs bm [yid], ks', cs') /\
+    rb_post c lo hi (S h) (ks1 ++ sep :: ks2)
+      (cs1 ++ PBranch xid c xks xcs :: PBranch yid c yks ycs :: cs2) [] [yid] ks' cs'.
+Proof.
+  intros * C L Sk F O F1 F2 Lxc Lx Fx Lyc Ly Fy HR.
+  pose proof (ords_length _ _ _ _ O) as LO.
+  eexists. eexists. split.
+  - erewrite exec_branch_merge_left with (ci := S (length cs1)) (sep := sep).
+    + replace (S (length cs1) - 1) with (length cs1) by lia.
+      rewrite (remove_at_zip0' _ _ _ _ _ L).
+      rewrite (set_nth_zip0' _ _ _ _ _ _ eq_refl).
+      rewrite (remove_at_zip1' _ _ _ _ _ _ eq_refl). reflexivity.
+    + exact LO.
+    + lia.
+    + replace (S (length cs1) - 1) with (length cs1) by lia. apply nth_error_zip0'. auto.
+    + apply nth_error_zip1.
+    + replace (S (length cs1) - 1) with (length cs1) by lia. apply nth_error_zip0.
+    + rewrite Lx; auto.
+    + exact HR.
+    + hlia c.
+    + hlia c.
+  - apply branch_merge_post; auto. hlia c.
+Qed.
+
+Lemma case_branch_merge_right : forall c lo hi h sep ks2 cs2 lm bm xid xks xcs yid yks ycs,
+  4 <= c ->
+  sorted_keys (sep :: ks2) -> Forall (in_bounds lo hi) (sep :: ks2) ->
+  ords lo hi (sep :: ks2) (PBranch xid c xks xcs :: PBranch yid c yks ycs :: cs2) ->
+  Forall (shape c false (S h)) cs2 ->
+  length xcs = S (length xks) -> S (length xks) = c / 2 -> Forall (shape c false h) xcs ->
+  length ycs = S (length yks) -> length yks = c / 2 -> Forall (shape c false h) ycs ->
+  exists ks' cs',
+    rebalance_branch lm bm (sep :: ks2)
+      (PBranch xid c xks xcs :: PBranch yid c yks ycs :: cs2) 0
+    = Ok (lm, deallocs bm [yid], ks', cs') /\
+    rb_post c lo hi (S h) (sep :: ks2)
+      (PBranch xid c xks xcs :: PBranch yid c yks ycs :: cs2) [] [yid] ks' cs'.
+Proof.
+  intros * C Sk F O F2 Lxc Lx Fx Lyc Ly Fy.
+  pose proof (ords_length _ _ _ _ O) as LO.
+  eexists. eexists. split.
+  - erewrite exec_branch_merge_right with (sep := sep); try reflexivity.
+    + exact LO.
+    + hlia c.
+    + hlia c.
+    + hlia c.
+  - apply (branch_merge_post c lo hi h [] sep ks2 [] cs2); auto. hlia c.
+Qed.
+
+(* ---------------- summary: rebalance_child repairs the parent ---------------- *)
+Lemma snoc_zip : forall (A : Type) (l1 : list A) x l2, (l1 ++ [x]) ++ l2 = l1 ++ x :: l2.
+Proof. intros. rewrite <- app_assoc. reflexivity. Qed.
+
+Lemma length_snoc : forall (A : Type) (l : list A) x, length (l ++ [x]) = S (length l).
+Proof. intros. rewrite app_length. simpl. lia. Qed.
+
+Lemma can_donate_leaf_false : forall id c ks (vs : list V) nx,
+  length ks <= c / 2 -> can_donate (PLeaf id c ks vs nx) = false.
+Proof. intros. unfold can_donate. simpl pcap. simpl pkeys. apply Nat.ltb_ge. auto. Qed.
+
+Lemma can_donate_branch_false : forall id c ks (cs : list ptree),
+  length ks <= c / 2 -> can_donate (PBranch id c ks cs) = false.
+Proof. intros. unfold can_donate. simpl pcap. simpl pkeys. apply Nat.ltb_ge. auto. Qed.
+
+Lemma rebalance_leaf_spec : forall c lo hi ks1 ks2 cs1 cs2 lm bm xid xks xvs xnx,
+  4 <= c -> length cs1 = length ks1 ->
+  sorted_keys (ks1 ++ ks2) -> Forall (in_bounds lo hi) (ks1 ++ ks2) ->
+  ords lo hi (ks1 ++ ks2) (cs1 ++ PLeaf xid c xks xvs xnx :: cs2) ->
+  Forall (shape c false 0) cs1 -> Forall (shape c false 0) cs2 ->
+  length xvs = length xks -> S (length xks) = c / 2 ->
+  1 <= length (ks1 ++ ks2) ->
+  exists dl db ks' cs',
+    rebalance_leaf lm bm (ks1 ++ ks2) (cs1 ++ PLeaf xid c xks xvs xnx :: cs2) (length cs1)
+      = Ok (deallocs lm dl, deallocs bm db, ks', cs') /\
+    rb_post c lo hi 0 (ks1 ++ ks2) (cs1 ++ PLeaf xid c xks xvs xnx :: cs2) dl db ks' cs'.
+Proof.
+  intros * C L Sk F O F1 F2 Lxv Lx Lk.
+  assert (Lcs2 : length cs2 = length ks2).
+  { pose proof (ords_length _ _ _ _ O) as LO. rewrite !app_length in LO. cbn [length] in LO. lia. }
+  destruct (snoc_cases cs1) as [->|(cs1a & l & ->)].
+  - (* no left sibling *)
+    destruct ks1; [|discriminate]. cbn [app length] in *.
+    destruct ks2 as [|sep ks2b]; [cbn [length] in Lk; lia|].
+    destruct cs2 as [|r cs2b]; [discriminate|].
+    inversion F2 as [|? ? Sr F2b]; subst.
+    destruct (shape_0_leaf Sr) as (rid & rks & rvs & rnx & ->).
+    apply shape_leaf_inv in Sr. destruct Sr as (_ & _ & Lrv & Lr2 & Lr1). specialize (Lr1 eq_refl).
+    destruct (Nat.ltb (c / 2) (length rks)) eqn:E.
+    + apply Nat.ltb_lt in E.
+      destruct (case_leaf_borrow_right c lo hi [] sep ks2b [] cs2b lm bm xid xks xvs xnx rid rks rvs rnx)
+        as (ks' & cs' & E1 & P); auto.
+      { intros l0 H0. cbn [length] in H0. lia. }
+      exists [], [], ks', cs'. split; auto.
+    + apply Nat.ltb_ge in E.
+      destruct (case_leaf_merge_right c lo hi sep ks2b cs2b lm bm xid xks xvs xnx rid rks rvs rnx)
+        as (ks' & cs' & E1 & P); auto; try lia.
+      exists [rid], [], ks', cs'. split; auto.
+  - (* left sibling l *)
+    destruct (snoc_cases ks1) as [->|(ks1a & sep & ->)];
+      [rewrite length_snoc in L; cbn [length] in L; lia|].
+    assert (La : length cs1a = length ks1a) by (rewrite !length_snoc in L; lia).
+    apply Forall_app in F1. destruct F1 as [F1a Fl]. inversion Fl as [|? ? Sl _]; subst.
+    destruct (shape_0_leaf Sl) as (lid & lks & lvs & lnx & ->).
+    apply shape_leaf_inv in Sl. destruct Sl as (_ & _ & Llv & Ll2 & Ll1). specialize (Ll1 eq_refl).
+    destruct (Nat.ltb (c / 2) (length lks)) eqn:E.
+    + apply Nat.ltb_lt in E.
+      rewrite !snoc_zip in *. rewrite length_snoc.
+      destruct (case_leaf_borrow_left c lo hi ks1a sep ks2 cs1a cs2 lm bm lid lks lvs lnx xid xks xvs xnx)
+        as (ks' & cs' & E1 & P); auto.
+      exists [], [], ks', cs'. split; auto.
+    + apply Nat.ltb_ge in E.
+      destruct cs2 as [|r cs2b].
+      * rewrite !snoc_zip in *. rewrite length_snoc.
+        destruct (case_leaf_merge_left c lo hi ks1a sep ks2 cs1a [] lm bm lid lks lvs lnx xid xks xvs xnx)
+          as (ks' & cs' & E1 & P); auto; try lia.
+        { intros r0 Hn.
+          assert (S (S (length cs1a)) < length (cs1a ++ [PLeaf lid c lks lvs lnx; PLeaf xid c xks xvs xnx]))
+            by (apply nth_error_Some; congruence).
+          rewrite app_length in H. cbn [length] in H. lia. }
+        exists [xid], [], ks', cs'. split; auto.
+      * destruct ks2 as [|sep2 ks2b]; [discriminate|].
+        inversion F2 as [|? ? Sr F2b]; subst.
+        destruct (shape_0_leaf Sr) as (rid & rks & rvs & rnx & ->).
+        apply shape_leaf_inv in Sr. destruct Sr as (_ & _ & Lrv & Lr2 & Lr1). specialize (Lr1 eq_refl).
+        destruct (Nat.ltb (c / 2) (length rks)) eqn:E2.
+        -- apply Nat.ltb_lt in E2.
+           destruct (case_leaf_borrow_right c lo hi (ks1a ++ [sep]) sep2 ks2b
+                       (cs1a ++ [PLeaf lid c lks lvs lnx]) cs2b lm bm xid xks xvs xnx rid rks rvs rnx)
+             as (ks' & cs' & E1 & P); auto.
+           { apply Forall_app; split; auto. }
+           { intros l0 _ Hn. rewrite snoc_zip in Hn. rewrite length_snoc in Hn.
+             replace (S (length cs1a) - 1) with (length cs1a) in Hn by lia.
+             rewrite nth_error_zip0 in Hn. injection Hn as <-.
+             apply can_donate_leaf_false. auto. }
+           exists [], [], ks', cs'. split; auto.
+        -- apply Nat.ltb_ge in E2.
+           rewrite !snoc_zip in *. rewrite length_snoc.
+           destruct (case_leaf_merge_left c lo hi ks1a sep (sep2 :: ks2b) cs1a (PLeaf rid c rks rvs rnx :: cs2b)
+                       lm bm lid lks lvs lnx xid xks xvs xnx)
+             as (ks' & cs' & E1 & P); auto; try lia.
+           { intros r0 Hn.
+             replace (S (S (length cs1a))) with (length cs1a + 2) in Hn by lia.
+             rewrite nth_error_zipn in Hn. cbn [nth_error] in Hn. injection Hn as <-.
+             apply can_donate_leaf_false. auto. }
+           exists [xid], [], ks', cs'. split; auto.
+Qed.
+
+Lemma rebalance_branch_spec : forall c lo hi h ks1 ks2 cs1 cs2 lm bm xid xks xcs,
+  4 <= c -> length cs1 = length ks1 ->
+  sorted_keys (ks1 ++ ks2) -> Forall (in_bounds lo hi) (ks1 ++ ks2) ->
+  ords lo hi (ks1 ++ ks2) (cs1 ++ PBranch xid c xks xcs :: cs2) ->
+  Forall (shape c false (S h)) cs1 -> Forall (shape c false (S h)) cs2 ->
+  length xcs = S (length xks) -> S (length xks) = c / 2 -> Forall (shape c false h) xcs ->
+  1 <= length (ks1 ++ ks2) ->
+  exists dl db ks' cs',
+    rebalance_branch lm bm (ks1 ++ ks2) (cs1 ++ PBranch xid c xks xcs :: cs2) (length cs1)
+      = Ok (deallocs lm dl, deallocs bm db, ks', cs') /\
+    rb_post c lo hi (S h) (ks1 ++ ks2) (cs1 ++ PBranch xid c xks xcs :: cs2) dl db ks' cs'.
+Proof.
+  intros * C L Sk F O F1 F2 Lxc Lx Fx Lk.
+  assert (Lcs2 : length cs2 = length ks2).
+  { pose proof (ords_length _ _ _ _ O) as LO. rewrite !app_length in LO. cbn [length] in LO. lia. }
+  destruct (snoc_cases cs1) as [->|(cs1a & l & ->)].
+  - (* no left sibling *)
+    destruct ks1; [|discriminate]. cbn [app length] in *.
+    destruct ks2 as [|sep ks2b]; [cbn [length] in Lk; lia|].
+    destruct cs2 as [|r cs2b]; [discriminate|].
+    inversion F2 as [|? ? Sr F2b]; subst.
+    destruct (shape_S_branch Sr) as (rid & rks & rcs & ->).
+    apply shape_branch_inv in Sr. destruct Sr as (h' & Eh & _ & Lrc & Lr2 & Lr1 & _ & Fr).
+    injection Eh as <-. specialize (Lr1 eq_refl).
+    destruct (Nat.ltb (c / 2) (length rks)) eqn:E.
+    + apply Nat.ltb_lt in E.
+      destruct (case_branch_borrow_right c lo hi h [] sep ks2b [] cs2b lm bm xid xks xcs rid rks rcs)
+        as (ks' & cs' & E1 & P); auto.
+      { intros l0 H0. cbn [length] in H0. lia. }
+      exists [], [], ks', cs'. split; auto.
+    + apply Nat.ltb_ge in E.
+      destruct (case_branch_merge_right c lo hi h sep ks2b cs2b lm bm xid xks xcs rid rks rcs)
+        as (ks' & cs' & E1 & P); auto; try lia.
+      exists [], [rid], ks', cs'. split; auto.
+  - (* left sibling l *)
+    destruct (snoc_cases ks1) as [->|(ks1a & sep & ->)];
+      [rewrite length_snoc in L; cbn [length] in L; lia|].
+    assert (La : length cs1a = length ks1a) by (rewrite !length_snoc in L; lia).
+    apply Forall_app in F1. destruct F1 as [F1a Fl]. inversion Fl as [|? ? Sl _]; subst.
+    destruct (shape_S_branch Sl) as (lid & lks & lcs & ->).
+    apply shape_branch_inv in Sl. destruct Sl as (h' & Eh & _ & Llc & Ll2 & Ll1 & _ & Fl').
+    injection Eh as <-. specialize (Ll1 eq_refl).
+    destruct (Nat.ltb (c / 2) (length lks)) eqn:E.
+    + apply Nat.ltb_lt in E.
+      rewrite !snoc_zip in *. rewrite length_snoc.
+      destruct (case_branch_borrow_left c lo hi h ks1a sep ks2 cs1a cs2 lm bm lid lks lcs xid xks xcs)
+        as (ks' & cs' & E1 & P); auto.
+      exists [], [], ks', cs'. split; auto.
+    + apply Nat.ltb_ge in E.
+      destruct cs2 as [|r cs2b].
+      * rewrite !snoc_zip in *. rewrite length_snoc.
+        destruct (case_branch_merge_left c lo hi h ks1a sep ks2 cs1a [] lm bm lid lks lcs xid xks xcs)
+          as (ks' & cs' & E1 & P); auto; try lia.
+        { intros r0 Hn.
+          assert (S (S (length cs1a)) < length (cs1a ++ [PBranch lid c lks lcs; PBranch xid c xks xcs]))
+            by (apply nth_error_Some; congruence).
+          rewrite app_length in H. cbn [length] in H. lia. }
+        exists [], [xid], ks', cs'. split; auto.
+      * destruct ks2 as [|sep2 ks2b]; [discriminate|].
+        inversion F2 as [|? ? Sr F2b]; subst.
+        destruct (shape_S_branch Sr) as (rid & rks & rcs & ->).
+        apply shape_branch_inv in Sr. destruct Sr as (h' & Eh & _ & Lrc & Lr2 & Lr1 & _ & Fr).
+        injection Eh as <-. specialize (Lr1 eq_refl).
+        destruct (Nat.ltb (c / 2) (length rks)) eqn:E2.
+        -- apply Nat.ltb_lt in E2.
+           destruct (case_branch_borrow_right c lo hi h (ks1a ++ [sep]) sep2 ks2b
+                       (cs1a ++ [PBranch lid c lks lcs]) cs2b lm bm xid xks xcs rid rks rcs)
+             as (ks' & cs' & E1 & P); auto.
+           { apply Forall_app; split; auto. }
+           { intros l0 _ Hn. rewrite snoc_zip in Hn. rewrite length_snoc in Hn.
+             replace (S (length cs1a) - 1) with (length cs1a) in Hn by lia.
+             rewrite nth_error_zip0 in Hn. injection Hn as <-.
+             apply can_donate_branch_false. auto. }
+           exists [], [], ks', cs'. split; auto.
+        -- apply Nat.ltb_ge in E2.
+           rewrite !snoc_zip in *. rewrite length_snoc.
+           destruct (case_branch_merge_left c lo hi h ks1a sep (sep2 :: ks2b) cs1a (PBranch rid c rks rcs :: cs2b)
+                       lm bm lid lks lcs xid xks xcs)
+             as (ks' & cs' & E1 & P); auto; try lia.
+           { intros r0 Hn.
+             replace (S (S (length cs1a))) with (length cs1a + 2) in Hn by lia.
+             rewrite nth_error_zipn in Hn. cbn [nth_error] in Hn. injection Hn as <-.
+             apply can_donate_branch_false. auto. }
+           exists [], [xid], ks', cs'. split; auto.
+Qed.
+
+Lemma rebalance_child_spec : forall c lo hi h ks1 ks2 cs1 cs2 x lm bm,
+  4 <= c -> length cs1 = length ks1 ->
+  sorted_keys (ks1 ++ ks2) -> Forall (in_bounds lo hi) (ks1 ++ ks2) ->
+  ords lo hi (ks1 ++ ks2) (cs1 ++ x :: cs2) ->
+  Forall (shape c false h) cs1 -> Forall (shape c false h) cs2 -> shape_u c h x ->
+  1 <= length (ks1 ++ ks2) ->
+  exists dl db ks' cs',
+    rebalance_child lm bm (ks1 ++ ks2) (cs1 ++ x :: cs2) (length cs1)
+      = Ok (deallocs lm dl, deallocs bm db, ks', cs') /\
+    rb_post c lo hi h (ks1 ++ ks2) (cs1 ++ x :: cs2) dl db ks' cs'.
+Proof.
+  intros * C L Sk F O F1 F2 Sx Lk.
+  unfold rebalance_child. rewrite (vec_get_ok 60 _ _ (nth_error_zip0 cs1 x cs2)). cbn [bind].
+  inversion Sx; subst; cbn [is_leaf].
+  - apply rebalance_leaf_spec; auto.
+  - apply rebalance_branch_spec; auto.
 Qed.
 
 End RemoveLocal.
